@@ -177,6 +177,20 @@ def doSample (l : Line) : Option String := do
     let idxs := cartesian (a.shape.map List.range)
     some s!"ok shape={showNatList a.shape} a={showCList (idxs.map a.get)}"
 
+/-- `probe c=… x=…` (one axis): the model's cell index, normalised distance and nearest node for
+every point: `ok i=… nd=… j=…`.  Used by the behavioural fallback of the translator. -/
+def doProbe (l : Line) : Option String := do
+  let cv ← l.rats? "c"
+  let xs ← l.rats? "x"
+  if cv.length < 2 then none
+  let a := cv.toArray
+  let c : Nat → Rat := fun i => a.getD i 0
+  let n := cv.length
+  let is := xs.map (findIndex c n)
+  let nds := xs.map (fun p => normDist c (findIndex c n p) p)
+  let js := xs.map (nearestIndex c n)
+  some s!"ok i={showNatList is} nd={showRatList nds} j={showNatList js}"
+
 def handle (l : Line) : Option String :=
   match l.op with
   | "interp" => doInterp l
@@ -184,6 +198,7 @@ def handle (l : Line) : Option String :=
   | "dispatch" => doDispatch l
   | "classify" => doClassify l
   | "sample" => doSample l
+  | "probe" => doProbe l
   | _ => none
 
 def main : IO Unit := driverLoop handle
